@@ -36,7 +36,13 @@ func (e *Exec) blockForever(why string) {
 func (e *Exec) doGo(fr *frame, g *ssa.Go) {
 	fv, args := e.resolveCall(fr, &g.Call)
 	if e.threads == nil {
-		e.ooe("go statement outside thread mode (%s)", fv.Name)
+		// Deferred-goroutine mode: the goroutine is queued and runs to completion the
+		// next time the spawning code waits for it (WaitGroup.Wait, a blocking pipe
+		// read, the end of the harness). This explores ONE schedule - the goroutine
+		// runs after the code between `go` and the wait - and is recorded as such.
+		e.stubs["goroutines (go statements) run to completion at the next wait point (WaitGroup.Wait / pipe read / end of harness): one schedule, no interleavings"] = true
+		e.pendingGo = append(e.pendingGo, pendingGo{fv, args})
+		return
 	}
 	e.threadSpawn(fv, args)
 }
@@ -45,3 +51,17 @@ func (e *Exec) threadYield(why string)                 {}
 func (e *Exec) threadWait(cond func() bool, why string) { e.abort("harness-error", "deadlock: %s", why) }
 func (e *Exec) threadSpawn(fv *FuncV, args []Value)    {}
 func (e *Exec) finishThreads()                         {}
+
+type pendingGo struct {
+	fv   *FuncV
+	args []Value
+}
+
+// runPendingGo runs every queued goroutine (and those they spawn) to completion.
+func (e *Exec) runPendingGo() {
+	for len(e.pendingGo) > 0 {
+		g := e.pendingGo[0]
+		e.pendingGo = e.pendingGo[1:]
+		e.callFunc(g.fv, g.args, "go")
+	}
+}
